@@ -33,6 +33,9 @@ pub enum PlaneKind {
     Ldsp { stack: u8 },
     /// PUSH/POP/PUSHF/POPF/CALL/RET/RETI with the stack pointer swept over all 256 values
     Stack { op: u8, stack: u8 },
+    /// one instruction form (first byte; for the two-byte group also the second byte, incl. PC as
+    /// operand register in every mode) over 16 flag nibbles x K seeded data states
+    Form { b1: u8, b2: Option<u8>, k: u32 },
 }
 
 #[derive(Clone, Debug, Serialize, Deserialize)]
@@ -82,6 +85,15 @@ pub fn plane_list() -> Vec<PlaneKind> {
     }
     for sr in 0..3u8 {
         v.push(PlaneKind::Two { sr, op2: 0x44 }); // LDFR Rs
+    }
+    // every first byte, and every second byte of the two-byte group (undefined ones must hang)
+    for b1 in 0..0xF0u16 {
+        v.push(PlaneKind::Form { b1: b1 as u8, b2: None, k: 4 });
+    }
+    for b1 in 0xF0..=0xFFu16 {
+        for b2 in 0..=255u16 {
+            v.push(PlaneKind::Form { b1: b1 as u8, b2: Some(b2 as u8), k: 2 });
+        }
     }
     for stack in [0u8, 16, 32, 48, 64] {
         v.push(PlaneKind::Ldsp { stack });
@@ -454,6 +466,41 @@ impl C01 {
                         }
                         self.one_case(&base, &[(d, a), (s, b), (4, fr)], &[], (a, b, fr), ctx)?;
                         ctx.cov.distinct(mix(0x300 | *op2 as u64, (s as u64) << 16 | (a as u64) << 8 | b as u64));
+                    }
+                }
+            }
+            PlaneKind::Form { b1, b2, k } => {
+                ctx.cov.set("opcode-forms-swept", mix(*b1 as u64, b2.map(|b| b as u64 + 1).unwrap_or(0)));
+                let seed = mix(p.regs[0] as u64 | (p.regs[1] as u64) << 8 | (p.regs[2] as u64) << 16, p.regs[6] as u64 | (p.regs[7] as u64) << 8);
+                for f in 0..16u8 {
+                    for di in 0..*k {
+                        if !want(f, di as u8, 0) {
+                            continue;
+                        }
+                        let mut rng = Rng::new(mix(seed, (f as u64) << 32 | di as u64));
+                        let setup = gen::form_case_setup(&mut rng, *b1, *b2, f);
+                        let mut ls = LockStep::new(self.prop(), &setup);
+                        let c = self.cfg();
+                        ls.compare = c.compare;
+                        ls.check_cost = c.check_cost;
+                        ls.lenient = c.lenient;
+                        let mut seen = 0;
+                        let mut n = 0;
+                        while seen < 3 && n < STALL_LIMIT + 200 {
+                            let ev = ls.tick().map_err(|mut v| {
+                                v.detail = format!("case a=0x{:02X} b=0x{:02X} f=0x00: {}", f, di, v.detail);
+                                v
+                            })?;
+                            n += 1;
+                            match ev {
+                                Event::Boundary => seen += 1,
+                                Event::None => {}
+                                _ => break,
+                            }
+                        }
+                        ctx.cov.sim_edges += ls.edge as u64;
+                        ctx.cov.extra("instructions-compared", seen as u64);
+                        ctx.cov.distinct(mix(mix(0x600 | *b1 as u64, b2.map(|b| b as u64 + 1).unwrap_or(0)), (f as u64) << 8 | di as u64));
                     }
                 }
             }
